@@ -2,6 +2,7 @@ package main
 
 import (
 	"go/types"
+	"net"
 	"strings"
 
 	"golang.org/x/tools/go/ssa"
@@ -279,6 +280,38 @@ func registerMisc(e *Engine) {
 			}
 		}
 		panic(pathEnd{kind: "unwind", msg: "discard.ReadFrom: more than 64 reads"})
+	})
+	// net.IP.String: exact for concrete addresses (computed by the real function), an
+	// injective uninterpreted rendering for symbolic ones
+	e.reg("(net.IP).String", func(ex *Exec, fn *ssa.Function, args []Value) (Value, *PanicV) {
+		c := ex.ctx
+		sl := args[0].(SliceV)
+		if sl.IsNil() || isZero(sl.len) {
+			return ex.mkString("<nil>"), nil
+		}
+		r := ex.sliceRegion(sl)
+		if !r.n.isConst || r.n.cv > 16 {
+			ex.unsupported("net.IP.String on symbolic length")
+		}
+		n := int(r.n.cv)
+		raw := make([]byte, n)
+		conc := true
+		for i := 0; i < n; i++ {
+			t := ex.regAt(r, c64(c, uint64(i)))
+			if !t.isConst {
+				conc = false
+				break
+			}
+			raw[i] = byte(t.cv)
+		}
+		if conc {
+			return ex.mkString(net.IP(raw).String()), nil
+		}
+		bv := ex.regionBV(r, n)
+		ln := c.UF("ipstrlen", BV(64), c.ZExt(bv, 128))
+		ex.addAxiom(c.And(c.Ule(c64(c, 2), ln), c.Ule(ln, c64(c, 45))))
+		node := ex.newNode(&BNode{kind: bFn, sid: c.UF("ipstrid", BV(64), c.ZExt(bv, 128))})
+		return StringV{node, ln}, nil
 	})
 	e.reg("flag.Bool", func(ex *Exec, fn *ssa.Function, args []Value) (Value, *PanicV) {
 		o := ex.newObj(args[1], "flag.Bool")
